@@ -2,6 +2,8 @@ import Driver.Common
 import Driver.C01
 import Rpki.Model.SigMsg
 import Rpki.Model.Sha
+import Rpki.Model.SigMsgDer
+import Driver.CertShow
 namespace Driver.C10
 open Driver Rpki.SigObj Rpki.SigMsg
 
@@ -58,6 +60,14 @@ def handle (toks : List String) (impl : String) : Verdict :=
     { oracle := some s!"ProvisioningCms / PublicationCms and SignedMessage give different verdicts for the same message: {impl}" }
   else
   match toks with
+  | ["idcd", h] =>
+    match hexB h with
+    | none => badOp "hex"
+    | some b => { model := some (Driver.CertShow.idcLine b), oracle := if impl = "panic" then some "IdCert::decode panicked" else none }
+  | ["smsgd", h] =>
+    match hexB h with
+    | none => badOp "hex"
+    | some b => { model := some (Driver.CertShow.smsgLine b), oracle := if impl = "panic" then some "SignedMessage::decode panicked" else none }
   | "msg" :: when :: facts :: _ =>
     match Driver.C01.parseInt when with
     | none => badOp "when"
@@ -77,7 +87,16 @@ def handle (toks : List String) (impl : String) : Verdict :=
       else match parseFacts facts with
       | none => badOp "facts"
       | some p =>
-        let model := if p.dec ∧ validateAt digest p.m p.peer when then "ok" else "err"
+        -- the model reads the message from its octets (`SigMsgDer.decodeSigMsg`: envelope, identity certificate,
+        -- CRL, signed attributes); the generator's facts supply only the verdicts of the signature primitive
+        let model := match toks.getLast?.bind hexB with
+          | none => "bad-op"
+          | some mb =>
+            match Rpki.SigMsgDer.decodeSigMsg mb with
+            | none => "err"
+            | some d =>
+              let m := Rpki.SigMsgDer.toMsg d p.m.sigKeyOk p.m.sigInput p.m.ee.sigOk p.m.crl.sigOk
+              if validateAt digest m p.peer when then "ok" else "err"
         let spec := p.dec && specOk p when
         { model := some model,
           oracle :=
